@@ -124,7 +124,7 @@ fn explore(ctx: &Ctx) -> Outcome {
     // length sweep (text offsets slid across the table offsets) and long multi-byte strings
     let mut extra = binfam::length_sweep();
     let (dl, dd) = ctx.tier.pick((300, 300), (1300, 4400));
-    extra.extend(binfam::multibyte_alignment().into_iter().chain(binfam::kana_family()).chain(binfam::tricky_family()).chain(binfam::collation_family()).chain(binfam::many_labels_family()).chain(binfam::pair_family()).chain(binfam::domain_family()).chain(binfam::palindromic_size_family()).chain(binfam::dense_family(dl, dd)).map(|mut c| {
+    extra.extend(binfam::multibyte_alignment().into_iter().chain(binfam::kana_family()).chain(binfam::tricky_family()).chain(binfam::collation_family()).chain(binfam::many_labels_family()).chain(binfam::pair_family()).chain(binfam::domain_family()).chain(binfam::palindromic_size_family()).chain(binfam::dense_family(dl, dd)).chain(binfam::long_string_family(if dl > 300 { 20_000 } else { 4400 })).map(|mut c| {
         c.cstrings.clear();
         c
     }));
